@@ -258,6 +258,10 @@ pub fn c09_big_case(rng: &mut Rng, st: &mut Stats) -> CaseOutcome {
         if rng.chance(1, 40) {
             input.push('\r');
         }
+        if rng.chance(1, 60) {
+            // a lone carriage return in the middle of a line (no line break by the rule)
+            input.push_str("\ra");
+        }
         input.push('\n');
         if input.len() > 1_500_000 {
             break;
